@@ -73,6 +73,8 @@ pub struct CoreSpec {
     pub allow_private: bool,
     pub ipv6_available: bool,
     pub reverse_proxy: Option<(SocketAddr, String)>,
+    /// forward through this SOCKS5 proxy (address, extended authentication) instead of directly
+    pub socks5: Option<(SocketAddr, bool)>,
     pub speedtest: bool,
     pub icmp: bool,
     pub icmp_timeout: Duration,
@@ -102,6 +104,7 @@ impl Default for CoreSpec {
             allow_private: true,
             ipv6_available: true,
             reverse_proxy: None,
+            socks5: None,
             speedtest: false,
             icmp: false,
             icmp_timeout: Duration::from_secs(3),
@@ -167,6 +170,16 @@ impl CoreSpec {
                     .build()
                     .map_err(|e| format!("{:?}", e))?,
             );
+        }
+        if let Some((addr, ext)) = &self.socks5 {
+            b = b.forwarder_settings(trusttunnel::settings::ForwardProtocolSettings::Socks5(
+                trusttunnel::settings::Socks5ForwarderSettings::builder()
+                    .server_address(*addr)
+                    .map_err(|e| e.to_string())?
+                    .extended_auth(*ext)
+                    .build()
+                    .map_err(|e| format!("{:?}", e))?,
+            ));
         }
         if self.icmp {
             b = b.icmp(
